@@ -3,6 +3,7 @@
 together-run (sampled configuration + schedule, component failures injected) versus, for
 every triple, the alone-run of that triple built from pristine objects."""
 import copy
+import json
 
 from checks.common import vio, weighted
 from checks import expsim as X
@@ -64,7 +65,7 @@ def gen_fault_spec(rng):
     for i in range(n_env):
         n = weighted(rng, [(4, 1), (12, 2), (26, 2), (30, 2), (45, 2), (60, 1), (130, 0.5), (160, 0.5)])      # (RejectionCB looks 100 interactions ahead)
         g = {"src": ["tagged", {"tag": f"T{i}", "n": n, "n_actions": 2 + rng.randrange(2), "extra": rng.random() < 0.2,
-                               "ctx_list": rng.random() < 0.4}], "ops": []}
+                               "ctx_list": rng.random() < 0.4, "nested_run": rng.random() < 0.04}], "ops": []}
         r = rng.random()
         if r < 0.45:
             g["ops"].append(["chunk", {"cache": rng.random() < 0.85}])
@@ -94,6 +95,12 @@ def gen_fault_spec(rng):
                       for _ in range(weighted(rng, [(1, 3), (2, 1)]))]
     spec = {"envs": groups, "learners": learners, "evaluators": evaluators, "seed": weighted(rng, [(1, 2), (rng.randrange(2, 50), 1)]),
             "quiet": True, "description": None, "flavour": "sim"}
+    if "modrng" in json.dumps(spec["learners"]):
+        # (a run nested inside an environment's read seeds the module-level generator - as every run does for its own evaluations - in the
+        #  middle of the outer evaluation; together with a learner that draws from that generator the outcome depends on where the read
+        #  happens.  Two rarities at once; not combined)
+        for g in spec["envs"]:
+            g["src"][1].pop("nested_run", None)
     if rng.random() < 0.5:
         spec["shape"] = "product"
         spec["default_evaluator"] = False
@@ -172,6 +179,10 @@ class C03:
         if config == [1, 0, 0]:
             rf_dir = None
             try:
+                X.build_experiment(spec)
+            except Exception:
+                return {"digest": "invalid", "trace": [], "nontrivial": False, "violation": None, "counters": {"invalid_spec": 1}, "sample": None}
+            try:
                 if cfg.get("result_file"):
                     # the together-run writes a result file (the recording stage is part of "every other triple still completes and is recorded")
                     import os, tempfile
@@ -180,8 +191,6 @@ class C03:
                     out["counters"]["reach.together_run_with_result_file"] = 1
                 else:
                     res, objs, log = X.run_inproc(spec, config=tuple(config))
-            except Exception as e:
-                return {"digest": "invalid", "trace": [], "nontrivial": False, "violation": None, "counters": {"invalid_spec": 1}, "sample": None}
             except BaseException as e:
                 if type(e).__name__ in ("SimKill", "KeyboardInterrupt"):
                     raise
